@@ -24,6 +24,14 @@ fn custom_splitter(word: &str) -> Vec<usize> {
     SPLITS.with(|s| s.borrow().get(word).cloned().unwrap_or_default())
 }
 
+/// deterministic custom splitters that insert hyphens: every interior char boundary / only the first one
+fn custom_all(word: &str) -> Vec<usize> {
+    word.char_indices().map(|(i, _)| i).filter(|i| *i > 0).collect()
+}
+fn custom_first(word: &str) -> Vec<usize> {
+    word.char_indices().map(|(i, _)| i).filter(|i| *i > 0).take(1).collect()
+}
+
 fn unhex(s: &str) -> String {
     if s == "-" {
         return String::new();
@@ -90,6 +98,10 @@ fn parse_split(t: &str) -> WordSplitter {
         WordSplitter::NoHyphenation
     } else if t == "H" {
         WordSplitter::HyphenSplitter
+    } else if t == "C1" {
+        WordSplitter::Custom(custom_all)
+    } else if t == "C2" {
+        WordSplitter::Custom(custom_first)
     } else if t.starts_with('C') {
         // C or C:<wordhex>=<p>,<p>/<wordhex>=...
         SPLITS.with(|s| {
